@@ -336,7 +336,7 @@ Lemma cstep_claims lo m cfg R' cs' e acc :
   Inv lo cfg -> cstep m (g_ring cfg) (g_cons cfg) = (R', cs', Some e) -> c_pc cs' <> CPanic ->
   ClInv cfg acc -> ClInv (mkCfg R' cs' (g_prods cfg)) (cl_upd (r_cap (g_ring cfg)) e acc).
 Proof. intros HI Hstep Hnp HC.
-  destruct (cstep_log_facts lo m cfg R' cs' e HI Hstep Hnp) as (A & _).
+  destruct (cstep_log_facts lo m cfg R' cs' e HI Hstep Hnp) as (_ & A & _).
   assert (Ecl : cl_upd (r_cap (g_ring cfg)) e acc = acc).
   { destruct (cstep_cases lo m cfg R' cs' e HI Hstep) as (_ & _ & [(Q & _) | (bytes & msgs & a0 & _ & _ & Ee & _)]).
     - apply cl_upd_cons_quiet. assumption.
